@@ -106,7 +106,7 @@ def stepPinned (sz : Nat) (s : St) (op : Op) : Out × St :=
 def handle (args : List String) : String :=
   match args with
   | ["facts"] =>
-    s!"typedEq shortcut={Gen.ListLocks.typedEqShortcut} locks={repr Gen.ListLocks.typedEqLocks} cmp={repr Gen.ListLocks.typedEqCompare}; " ++
+    s!"typedEq shortcut={Gen.ListLocks.typedEqShortcut} locksLt={repr Gen.ListLocks.typedEqLocksLt} cmpLt={repr Gen.ListLocks.typedEqCompareLt} locksGe={repr Gen.ListLocks.typedEqLocksGe} cmpGe={repr Gen.ListLocks.typedEqCompareGe}; " ++
     s!"erasedEq shortcut={Gen.ListLocks.erasedEqShortcut} locksLt={repr Gen.ListLocks.erasedEqLocksLt} cmpLt={repr Gen.ListLocks.erasedEqCompareLt} locksGe={repr Gen.ListLocks.erasedEqLocksGe} cmpGe={repr Gen.ListLocks.erasedEqCompareGe}; " ++
     s!"concat same={repr Gen.ListLocks.concatStepsSame} lt={repr Gen.ListLocks.concatStepsLt} ge={repr Gen.ListLocks.concatStepsGe}" |>.replace "\n" " "
   | ["cap", sz, req] =>
